@@ -6,6 +6,7 @@ CONSTANTS
   WireMode = "scen"
   InitMode = "initialized"
   SortPI = TRUE
+  TailIgnored = FALSE
 INVARIANTS
   Emit
 CHECK_DEADLOCK FALSE
